@@ -1,25 +1,43 @@
 // U-ewah (C06): gix_bitmap::ewah::decode + Vec::for_each_set_bit on arbitrary bytes never panic.
 include!("../../../../engine/src_trait.rs");
 
-/// decode N arbitrary bytes; if a bitmap comes out, walk its set bits (the callback stops the walk after
-/// 3 bits so that run lengths of up to 2^38 bits do not have to be unrolled)
-fn h_ewah_any<const N: usize, S: Src>(s: &mut S) {
+/// header level: decode() on N arbitrary bytes never panics and leaves a suffix of the input
+fn h_ewah_decode_any<const N: usize, S: Src>(s: &mut S) {
     let data: [u8; N] = s.bytes();
     if let Ok((v, rest)) = gix_bitmap::ewah::decode(&data[..]) {
         assert!(rest.len() <= N);
-        let mut calls = 0u32;
-        let _ = v.for_each_set_bit(|_idx| { calls += 1; if calls >= 3 { None } else { Some(()) } });
         let _ = v.num_bits();
     }
     s.reach();
 }
+/// a bitmap with exactly W words (the word count in the header is fixed per harness: a symbolic count makes CBMC unroll the
+/// word-copy loop up to the unwind bound), arbitrary bit count, arbitrary word contents, arbitrary trailing field:
+/// decoding succeeds and walking the set bits never panics (the callback stops at the first set bit, so run lengths of up
+/// to 2^38 bits need not be unrolled; all-zero literal words are walked in full)
+fn h_ewah_words<const W: usize, const N: usize, S: Src>(s: &mut S) {
+    let mut data = [0u8; N];
+    let nb = s.u32().to_be_bytes();
+    data[0] = nb[0]; data[1] = nb[1]; data[2] = nb[2]; data[3] = nb[3];
+    let wl = (W as u32).to_be_bytes();
+    data[4] = wl[0]; data[5] = wl[1]; data[6] = wl[2]; data[7] = wl[3];
+    let mut i = 8;
+    while i < N { data[i] = s.u8(); i += 1; }
+    let (v, rest) = gix_bitmap::ewah::decode(&data[..]).expect("a complete bitmap decodes");
+    assert!(rest.is_empty(), "header + W words + run-length-word field are consumed");
+    let _ = v.for_each_set_bit(|_idx| None);
+    s.reach();
+}
 
 harnesses! {
-    #[kani::proof] #[kani::unwind(66)] ewah_any_11 => h_ewah_any::<11, _>;
-    #[kani::proof] #[kani::unwind(66)] ewah_any_12 => h_ewah_any::<12, _>;
-    #[kani::proof] #[kani::unwind(66)] ewah_any_20 => h_ewah_any::<20, _>;
-    #[kani::proof] #[kani::unwind(66)] ewah_any_28 => h_ewah_any::<28, _>;
-    #[kani::proof] #[kani::unwind(66)] ewah_any_36 => h_ewah_any::<36, _>;
+    #[kani::proof] #[kani::unwind(5)] ewah_decode_any_7 => h_ewah_decode_any::<7, _>;
+    #[kani::proof] #[kani::unwind(5)] ewah_decode_any_11 => h_ewah_decode_any::<11, _>;
+    #[kani::proof] #[kani::unwind(5)] ewah_decode_any_12 => h_ewah_decode_any::<12, _>;
+    #[kani::proof] #[kani::unwind(5)] ewah_decode_any_20 => h_ewah_decode_any::<20, _>;
+    #[kani::proof] #[kani::unwind(5)] ewah_decode_any_28 => h_ewah_decode_any::<28, _>;
+    #[kani::proof] #[kani::unwind(22)] ewah_words_0 => h_ewah_words::<0, 12, _>;
+    #[kani::proof] #[kani::unwind(22)] ewah_words_1 => h_ewah_words::<1, 20, _>;
+    #[kani::proof] #[kani::unwind(66)] ewah_words_2 => h_ewah_words::<2, 28, _>;
+    #[kani::proof] #[kani::unwind(66)] ewah_words_3 => h_ewah_words::<3, 36, _>;
 }
 
 #[cfg(not(kani))]
